@@ -239,7 +239,14 @@ def main(ctx: Ctx) -> int:
             rows = []
             try:
                 net4 = Network(reacs, grain_model=model)
+                symbols_of = {(g5.group or 0): set(g5.deriveds) | set(g5.params) for g5 in net4.grains}
                 for g4 in net4.grains:
+                    # no derived quantity of a population is written with a symbol that belongs to ANOTHER population only
+                    own_ = symbols_of[g4.group or 0]
+                    foreign = set().union(*[v_ for k_, v_ in symbols_of.items() if k_ != (g4.group or 0)]) - own_
+                    leaks = sorted({f"{k4}<-{tok}" for k4, v4 in g4.deriveds.items() for tok in re.findall(r"[A-Za-z_]\w*", str(v4)) if tok in foreign})
+                    if leaks and model.startswith("hh93"):
+                        rows.append({"group": g4.group or 0, "summands": leaks, "own": [], "each_once": True, "text": f"quantities written with another population's symbols: {leaks}"})
                     key = next((k4 for k4 in g4.deriveds if k4.startswith("gdens")), None)
                     val = str(g4.deriveds.get(key, "")) if key else ""
                     found = re.findall(r"IDX_(\w+)", val)
